@@ -193,4 +193,79 @@ def predictInputsFrom (double : Bool) (start : Nat) : List ArgSpec → List (GIn
 def predictInputs (double : Bool) (args : List ArgSpec) : List PredIn :=
   ((predictInputsFrom double 0 args).filter (fun p => alwaysKeep p.1.name || p.1.used)).map (·.2)
 
+/-! ### declared outputs: binding, then the optimizer's rewiring history -/
+
+/-- Declared dims of result leaf `j` right after output binding, from the dims of the JAX result
+    (`jax.eval_shape`): `outputs_as_nchw` permutes them like the boundary Transpose permutes the
+    value (`_LayoutAdapter.bind_output`), a complex result gets the trailing pair dimension
+    (`add_outputs_from_vars`). -/
+def predictOutDims (dims : List String) (nchw cplx : Bool) : List String :=
+  let d := if nchw then permNCHW dims else dims
+  if cplx then d ++ ["2"] else d
+
+/-- Declaration of a value: element type code and dims. -/
+structure Decl where
+  dtype : Nat
+  dims : List String
+  deriving DecidableEq, Repr
+
+/-- What an optimizer pass can do that is visible at the interface.
+    * `rauw old new true`  — `ir.convenience.replace_all_uses_with(old, new, replace_graph_outputs=True)`
+    * `rauw old new false` — the same without touching `graph.outputs`
+    * `setDecl v d`        — shape/dtype refresh or propagation onto value `v`
+    * `remove vs`          — removal of a node whose outputs are `vs` -/
+inductive Step where
+  | rauw (old new : Nat) (outs : Bool)
+  | setDecl (v : Nat) (d : Decl)
+  | remove (vs : List Nat)
+  deriving Repr
+
+/-- The interface-relevant state of a graph: the ordered list of graph outputs (value ids) and the
+    declaration of every value. -/
+structure GState where
+  outs : List Nat
+  decl : Nat → Option Decl
+
+def substOut (old new : Nat) (v : Nat) : Nat := if v = old then new else v
+
+def applyStep (s : GState) : Step → GState
+  | .rauw old new true => { s with outs := s.outs.map (substOut old new) }
+  | .rauw _ _ false => s
+  | .setDecl v d => { s with decl := fun x => if x = v then some d else s.decl x }
+  | .remove _ => s
+
+def run (s : GState) (h : List Step) : GState := h.foldl applyStep s
+
+/-- The guard under which a step cannot change the declared interface:
+    a value that replaces a graph output is declared like the output it replaces; a declaration
+    is only rewritten on a value that is not a graph output (or with what it already says); a
+    removed node does not define a graph output. -/
+def stepOk (s : GState) : Step → Bool
+  | .rauw old new true => !s.outs.contains old || (s.decl new == s.decl old)
+  | .rauw _ _ false => true
+  | .setDecl v d => !s.outs.contains v || (s.decl v == some d)
+  | .remove vs => vs.all (fun v => !s.outs.contains v)
+
+/-- Run a history, stopping at the first step whose guard fails. -/
+def runChecked (s : GState) : List Step → Option GState
+  | [] => some s
+  | st :: rest => if stepOk s st then runChecked (applyStep s st) rest else none
+
+/-- indices of the steps whose guard fails (in the unchecked run) -/
+def badSteps (s : GState) : List Step → Nat → List Nat
+  | [], _ => []
+  | st :: rest, k => (if stepOk s st then [] else [k]) ++ badSteps (applyStep s st) rest (k + 1)
+
+def iface (s : GState) : List (Option Decl) := s.outs.map s.decl
+
+/-- A declaration as the interface property sees it: the element type up to its class (the width
+    inside a class is decided by `reconcile` / C09), the dims exactly. -/
+def classCode : DClass → Nat
+  | .bool => 0 | .int => 1 | .float => 2 | .complex => 3 | .other => 4
+
+def Decl.abstract (d : Decl) : Decl := ⟨classCode (classOf d.dtype), d.dims⟩
+
+def declOfList (l : List (Nat × Decl)) : Nat → Option Decl :=
+  fun v => (l.find? (fun p => p.1 == v)).map (·.2)
+
 end J2O.C05
